@@ -524,7 +524,7 @@ func raceSolvers(file string, timeout time.Duration, need int) []SolverResult {
 			}
 		}
 	}
-	if definite == 0 && need <= 1 && ctx.Err() == nil {
+	if definite == 0 && ctx.Err() == nil {
 		// second round: the same query under other random seeds (search-order luck should not decide a verdict)
 		extra := []solverSpec{
 			{"z3-new(seed 7)", []string{"z3-new", "-smt2", "smt.random_seed=7", "sat.random_seed=7"}},
